@@ -21,7 +21,10 @@ import (
 
 	pr "github.com/benoitkugler/webrender/css/properties"
 	bo "github.com/benoitkugler/webrender/html/boxes"
+	"github.com/benoitkugler/webrender/html/layout"
+	"github.com/benoitkugler/webrender/html/tree"
 	"github.com/benoitkugler/webrender/text"
+	"github.com/benoitkugler/webrender/utils"
 
 	"wrverif/mp"
 	"wrverif/render"
@@ -758,6 +761,127 @@ func (rn *runner) fixedCorr(t *tableSpec, o *obs, src string, seed uint64) ([]*b
 	return mcw, nil
 }
 
+// autoCorr: the column-width part of the auto algorithm. The hook re-runs tableWrapperWidth on the table
+// wrapper of a freshly built formatting structure and reports what tableAndColumnsPreferredWidths returned
+// (the content widths are inputs of the model) and what autoTableLayout made of it; that result must be the
+// one the pipeline produced, and the model must reproduce it.
+func (rn *runner) autoCorr(t *tableSpec, o *obs, src string, seed uint64) error {
+	tb := o.table
+	h, err := tree.NewHTML(utils.InputString(src), "", nil, "")
+	if err != nil {
+		return nil
+	}
+	var a *layout.VerifC13AutoTable
+	oc := render.Guard(60*time.Second, func() { a = layout.VerifC13Auto(h, rn.fonts, pr.Float(t.bodyWidth), pr.AutoF) })
+	if !oc.OK() || a == nil || a.Fixed {
+		rn.out.Hit("corr:auto:hook-unavailable")
+		return nil
+	}
+	same := a.Width == mf(tb.Width) && len(a.ColumnWidths) == len(tb.ColumnWidths)
+	for i := range a.ColumnWidths {
+		if same && a.ColumnWidths[i] != tb.ColumnWidths[i] {
+			same = false
+		}
+	}
+	if !same {
+		// e.g. the pipeline laid the table out against another containing block: not comparable
+		rn.out.Hit("corr:auto:hook-differs-from-pipeline")
+		return nil
+	}
+	cols := []sx.X{sx.A("cols")}
+	for i := range a.ColMin {
+		cols = append(cols, sx.L(fR(a.ColMin[i]), fR(a.ColMax[i]), fR(a.ColPct[i]), sx.B(a.Constrained[i]), sx.B(a.HasCell[i]), sx.B(a.HasMaxContent[i])))
+	}
+	w := sx.A("none")
+	if !a.WidthAuto {
+		w = fR(a.WidthIn)
+	}
+	req := sx.L(sx.A("auto"), w, fR(a.Available), fR(a.TableMin), fR(a.TableMax), fR(a.Spacing), sx.L(cols...))
+	ans, err := rn.m.Ask(req)
+	if err != nil {
+		return err
+	}
+	if !isOK(ans) || len(ans.Xs) != 5 {
+		return fmt.Errorf("model: %s -> %s", req, ans)
+	}
+	mw, _ := ratOf(ans.Xs[1])
+	scale := float64(a.Width)
+	if v := float64(a.Available); v > scale {
+		scale = v
+	}
+	if v := float64(a.TableMax); v > scale && v < 1e6 {
+		scale = v
+	}
+	ok := len(ans.Xs[2].Xs) == len(a.ColumnWidths) && closeScale(a.Width, mw, scale)
+	for i, x := range ans.Xs[2].Xs {
+		q, _ := ratOf(x)
+		if ok && !closeScale(a.ColumnWidths[i], q, scale) {
+			ok = false
+		}
+	}
+	if !ok {
+		// knife edge: the assignable width equals a guess sum up to float32 rounding, so the implementation
+		// legitimately takes the other branch of `assignable <= sum(guess)`: not comparable
+		if margin, _ := ratOf(ans.Xs[4]); len(a.ColMin) != 0 && closeScale(0, margin, scale) {
+			rn.out.Hit("corr:auto:knife-edge-skipped")
+			return nil
+		}
+	}
+	rn.out.Hit("corr:auto:" + ans.Xs[3].S)
+	if !ok {
+		rn.out.Add(res.Finding{Kind: "corr", Op: "corr:auto", Input: src, Impl: fmt.Sprintf("width=%g columns=%v", a.Width, a.ColumnWidths),
+			Model: ans.String(), Reason: "autoTableLayout differs from model autoLayout on " + req.String(), Seed: seed})
+	}
+	return nil
+}
+
+// groupsCorr: the table level of the vertical pass: group positions from the observed group heights, and
+// the table's used height from its specified height (model stackGroups / tableHeight).
+func (rn *runner) groupsCorr(t *tableSpec, o *obs, src string, seed uint64) error {
+	tb := o.table
+	spec := sx.A("none")
+	if h := tb.Style.GetHeight(); h.S != "auto" && h.Unit == pr.Px {
+		v := h.Value
+		if tb.Style.GetBoxSizing() == "border-box" {
+			v -= mf(tb.PaddingTop) + mf(tb.PaddingBottom) + tb.BorderTopWidth + tb.BorderBottomWidth
+			if v < 0 {
+				v = 0
+			}
+		}
+		spec = fR(v)
+	} else if h.S != "auto" {
+		rn.out.Hit("corr:groups:skipped-percent-height")
+		return nil
+	}
+	hs := []sx.X{sx.A("hs")}
+	for _, g := range tb.Children {
+		hs = append(hs, fR(mf(g.Box().Height)))
+	}
+	req := sx.L(sx.A("stack"), sx.R(o.sy), fR(tb.ContentBoxY()), spec, sx.L(hs...))
+	ans, err := rn.m.Ask(req)
+	if err != nil {
+		return err
+	}
+	if !isOK(ans) || len(ans.Xs) != 4 {
+		return fmt.Errorf("model: %s -> %s", req, ans)
+	}
+	th, _ := ratOf(ans.Xs[3])
+	scale := float64(tb.ContentBoxY() + mf(tb.Height))
+	same := len(ans.Xs[1].Xs) == len(tb.Children) && closeScale(mf(tb.Height), th, scale)
+	for i, x := range ans.Xs[1].Xs {
+		y, _ := ratOf(x)
+		if same && !closeScale(tb.Children[i].Box().PositionY, y, scale) {
+			same = false
+		}
+	}
+	rn.out.Hit("corr:groups")
+	if !same {
+		rn.out.Add(res.Finding{Kind: "corr", Op: "corr:groups", Input: src, Impl: o.dump(), Model: ans.String(),
+			Reason: "row group positions / table height differ from model on " + req.String(), Seed: seed})
+	}
+	return nil
+}
+
 func (rn *runner) placeCorr(t *tableSpec, o *obs, src string, seed uint64) error {
 	tb := o.table
 	ws := []sx.X{sx.A("ws")}
@@ -1002,10 +1126,18 @@ func (rn *runner) one(t *tableSpec, seed uint64) error {
 			return err
 		}
 	}
+	if mode == "auto" {
+		if err := rn.autoCorr(t, o, src, seed); err != nil {
+			return err
+		}
+	}
 	if err := rn.placeCorr(t, o, src, seed); err != nil {
 		return err
 	}
 	if err := rn.rowsCorr(t, o, src, seed); err != nil {
+		return err
+	}
+	if err := rn.groupsCorr(t, o, src, seed); err != nil {
 		return err
 	}
 
